@@ -13,7 +13,7 @@ pub mod m1 {
       relation r2(i64);
       relation r3(i64, i64, i64);
       r3(0, 3, 3) <-- r0(1, 1);
-      r3(v0, v0, (v0 + 1)) <-- let v0 = 2, r3(v0, (v0 + 1), (v0 + 1)), r1(v0, v0), if (v0 < 6);
+      r3(v0, v0, (v0 + 1)) <-- let v0 = 2, r3(v0, (v0 + 1), (v0 + 1)), r1(v0, v0), if (v0 <= 6), if (v0 < 6);
       r3(v0, v1, v2) <-- r0(v0, v1) if ((*v0) < 3), r1(v1, v2) if ((*v2) != (*v1));
       r2(v0) <-- r0(v0, v1) if ((*v0) < 3), r1(v1, v2) if ((*v2) != (*v1));
       r3(v1, ((*v0) + 1), v1) <-- r2(v0) if ((*v0) < 2), r1(v1, v0), if ((*v0) < 6);
@@ -60,13 +60,13 @@ pub mod m2_ren0 {
       relation rel3_(i64, i64);
       relation rel4_(i64, i64);
       relation rel5_(i64, i64);
-      rel2_(x2_) <-- rel0_(0, x0_) if ((*x0_) <= 6) let x1_ = ((*x0_) + 0), let x2_ = 1;
+      rel2_(x2_) <-- rel0_(0, x0_) if ((*x0_) <= 6) let x1_ = ((*x0_) + 0), let x2_ = 1, if (x2_ <= 6);
       rel3_(0, x1_) <-- for x0_ in 2..1, rel2_(x0_) if (x0_ < 6), rel1_(x1_);
       rel2_(3) <-- rel3_(x0_, x1_);
       rel4_(x0_, x1_) <-- rel0_(x0_, x1_), rel3_(x0_, x0_), rel0_(x1_, x2_);
       rel2_(x0_) <-- rel5_(x0_, x1_), rel5_(x0_, x0_), rel5_(x1_, x2_);
       rel4_(x2_, x1_) <-- if let Some(x0_) = Some(0), rel2_(x1_) if ((*x1_) < 5), rel1_(x2_) if ((*x2_) != 3);
-      rel3_(x0_, x2_) <-- rel3_(0, 0), rel4_(0, x0_) if ((*x0_) <= 3), rel3_(((*x0_) + 0), x1_), if let Some(x2_) = Some(((*x0_) + 0));
+      rel3_(x0_, x2_) <-- rel3_(0, 0), rel4_(0, x0_) if ((*x0_) <= 3), rel3_(((*x0_) + 0), x1_), if let Some(x2_) = Some(((*x0_) + 0)), if (x2_ <= 6);
       rel5_(((*x0_) + 1), x0_) <-- rel5_(x0_, x1_), if ((*x0_) < 6);
    }
    pub struct Inst { p: Prog, pool: Option<ascent::rayon::ThreadPool> }
@@ -104,14 +104,14 @@ pub mod m4_perm0 {
    use crate::common::*;
    ascent! {
       pub struct Prog;
-      relation r2(i64, i64, i64);
       relation r3(i64, i64, i64);
       relation r0(i64, i64);
+      relation r2(i64, i64, i64);
       relation r1(i64);
-      r3(v0, 0, 0) <-- if let Some(v0) = Some(3), r1(v0) if (v0 <= 2);
+      r3(v0, v2, v2) <-- if let Some(v0) = Some(4), r3(v1, v0, v2), r1(((*v1) + 1)), if (v0 <= 6);
+      r3(v0, 0, 0) <-- if let Some(v0) = Some(3), if (v0 <= 6), r1(v0) if (v0 <= 2);
       r2(v0, v1, v2) <-- r0(v0, v1) if ((*v0) < 5), r0(v1, v2) if ((*v2) != (*v1));
-      r3(v0, v2, v2) <-- if let Some(v0) = Some(4), r3(v1, v0, v2), r1(((*v1) + 1));
-      r2(v0, v0, v0) <-- let v0 = 3, r1(3);
+      r2(v0, v0, v0) <-- r1(3), let v0 = 3, if (v0 <= 6);
    }
    pub struct Inst { p: Prog, pool: Option<ascent::rayon::ThreadPool> }
    pub fn make(pool: Option<usize>) -> Box<dyn Driver> {
@@ -361,7 +361,7 @@ pub mod m11_ren1 {
       relation path(i64, i64);
       relation node(i64, i64);
       node(a, b) <-- node(a, b), edge(a, a), node(b, c);
-      node(1, a) <-- if let Some(a) = Some(3), path(a, b), edge(a, a), for c in 0..4;
+      node(1, a) <-- if let Some(a) = Some(3), path(a, b), edge(a, a), for c in 0..4, if (a <= 6);
    }
    pub struct Inst { p: Prog, pool: Option<ascent::rayon::ThreadPool> }
    pub fn make(pool: Option<usize>) -> Box<dyn Driver> {
